@@ -1074,6 +1074,57 @@ def esl_vec_FEntropy [VNum α] {ω : Type} [VMix α ω] [VNum ω] (p : Array α)
       pure H
   pure H
 
+/-- `esl_vec_DRelEntropy` (esl_vectorops.c:1425) -/
+def esl_vec_DRelEntropy [VInf α] (p : Array α) (q : Array α) (n : Int) : Option (α) := do
+  let kl := (CElem.ofNat 0 : α)
+  let t8 ← loopRet 0 n kl fun i kl => do
+      let t1 ← rd p i
+      if (VOrd.lt (CElem.ofNat 0 : α) t1) then
+        let t2 ← rd q i
+        if (CElem.eq t2 (CElem.ofNat 0 : α)) then
+          pure (Sum.inl (VInf.inf : α))
+        else
+          let t3 ← rd p i
+          let t4 ← rd p i
+          let t5 ← rd q i
+          let t6 := t4 / t5
+          let t7 ← CElem.mul t3 (VNum.log2 t6)
+          let kl ← CElem.add kl t7
+          pure (Sum.inr kl)
+      else
+        pure (Sum.inr kl)
+  match t8 with
+  | Sum.inl t9 =>
+    pure t9
+  | Sum.inr kl =>
+    pure kl
+
+/-- `esl_vec_FRelEntropy` (esl_vectorops.c:1439) -/
+def esl_vec_FRelEntropy [VInf α] {ω : Type} [VMix α ω] [VNum ω] (p : Array α) (q : Array α) (n : Int) : Option (α) := do
+  let kl := (CElem.ofNat 0 : α)
+  let t9 ← loopRet 0 n kl fun i kl => do
+      let t1 ← rd p i
+      if (VOrd.lt (VNum.ofNat 0 : ω) (VMix.widen t1 : ω)) then
+        let t2 ← rd q i
+        if (VNum.eq (VMix.widen t2 : ω) (VNum.ofNat 0 : ω)) then
+          pure (Sum.inl (VInf.inf : α))
+        else
+          let t3 ← rd p i
+          let t4 ← rd p i
+          let t5 ← rd q i
+          let t6 := t4 / t5
+          let t7 : ω := (VMix.widen t3 : ω) * (VNum.log2 (VMix.widen t6 : ω))
+          let t8 : ω := (VMix.widen kl : ω) + t7
+          let kl := VMix.narrow t8
+          pure (Sum.inr kl)
+      else
+        pure (Sum.inr kl)
+  match t9 with
+  | Sum.inl t10 =>
+    pure t10
+  | Sum.inr kl =>
+    pure kl
+
 /-- `esl_vec_DCDF` (esl_vectorops.c:1482) -/
 def esl_vec_DCDF (p : Array α) (n : Int) (cdf : Array α) : Option (Array α) := do
   let t1 ← rd p 0
